@@ -162,6 +162,22 @@ def run(tier):
     for f in sorted(glob.glob(os.path.join(vlib.REPO, "examples", "*.mmm"))
                     + glob.glob(os.path.join(vlib.REPO, "crates/lib/mimium-test/tests/mmm", "*.mmm"))):
         corpus.append((os.path.basename(f), open(f).read(), f))
+    # branch constructs outside Lang: numeric match with literal arms and a default arm, each arm stateless or
+    # stateful, nested in a stateful function or not, every arm taken at run time (now % k cycles through them)
+    head = "fn cnt(){ self + 1 }\nfn lag(x){ mem(x) }\n"
+    arms = {"c": "5", "s": "cnt()", "m": "lag(now)", "d": "delay(3, now, 2)", "ss": "cnt() + cnt() * 10"}
+    for a0 in arms:
+        for a1 in arms:
+            for dflt in list(arms) + [None]:
+                body = f"0 => {arms[a0]}, 1 => {arms[a1]}" + (f", _ => {arms[dflt]}" if dflt else "")
+                k = 3 if dflt else 2
+                for wrap in ("dsp", "fn"):
+                    if wrap == "dsp":
+                        src = head + f"fn dsp(){{\n  let r = match (now % {k}) {{ {body} }}\n  r + cnt() * 1000\n}}\n"
+                    else:
+                        src = head + (f"fn g(x){{\n  self + match (x % {k}) {{ {body} }}\n}}\n"
+                                      f"fn dsp(){{\n  g(now) + g(now + 1) * 1000 + lag(now)\n}}\n")
+                    corpus.append((f"match:{a0}{a1}{dflt or '-'}:{wrap}", src, None))
     pins = {}
     d = os.path.join(vlib.VERIF, "findings", "C03")
     if os.path.isdir(d):
